@@ -859,24 +859,34 @@ def field_rows(c, ctx, cinfo=None):
     return rows, None
 
 
+RULE_FAILURES = []      # rules of the generic machinery that could not be read from the current source (each is a broken obligation)
+
+
 def _attr_writer_ns(c, attr, ctx):
     """namespace key under which to_node writes an attribute field, read from the source of Serializable.to_node:
-    `xml_ns_key = self._child_xml_ns_key.get(attribute, <default>)` in the `_set_as_attribute` branch"""
+    `xml_ns_key = self._child_xml_ns_key.get(attribute, <default>)` in the `_set_as_attribute` branch (also accepted inline as
+    an argument of serialize_attribute).  If the rule cannot be found the translator does not stop: it records the failure
+    (a broken obligation) and goes on with the rule of the source the model was transcribed from (default None)."""
     from sarpy.io.xml.base import Serializable
     global _ATTR_DEFAULT
     try:
         _ATTR_DEFAULT
     except NameError:
-        fn = ast.parse(textwrap.dedent(inspect.getsource(Serializable.to_node))).body[0]
         found = None
-        for n in ast.walk(fn):
-            if isinstance(n, ast.If) and ast.unparse(n.test) == 'attribute in self._set_as_attribute':
-                for st in n.body:
-                    if isinstance(st, ast.Assign) and ast.unparse(st.targets[0]) == 'xml_ns_key' and \
-                            ast.unparse(st.value).startswith('self._child_xml_ns_key.get(attribute, '):
-                        found = ast.unparse(st.value.args[1])
+        try:
+            fn = ast.parse(textwrap.dedent(inspect.getsource(Serializable.to_node))).body[0]
+            for n in ast.walk(fn):
+                if isinstance(n, ast.If) and ast.unparse(n.test) == 'attribute in self._set_as_attribute':
+                    for m in ast.walk(ast.Module(body=n.body, type_ignores=[])):
+                        if isinstance(m, ast.Call) and ast.unparse(m.func) == 'self._child_xml_ns_key.get' and len(m.args) == 2 \
+                                and ast.unparse(m.args[0]) == 'attribute':
+                            found = ast.unparse(m.args[1])
+        except Exception as e:       # pragma: no cover
+            found = f'<{type(e).__name__}: {e}>'
         if found not in ('None', 'ns_key'):
-            raise ValueError(f'to_node: unexpected namespace rule for attributes: {found}')
+            RULE_FAILURES.append(f'Serializable.to_node: the namespace rule for attribute fields could not be read (found {found!r}); '
+                                 'the tables keep the rule of the transcribed source (unqualified unless _child_xml_ns_key names a key)')
+            found = 'None'
         _ATTR_DEFAULT = found
     return c._child_xml_ns_key.get(attr, None if _ATTR_DEFAULT == 'None' else ctx)
 
@@ -1123,8 +1133,15 @@ def build():
     outside = {}
     construct = {}
 
+    untranslated = {}
+
     def decide(q, c):
-        kind, inf = class_construct(c)
+        try:
+            kind, inf = class_construct(c)
+        except Exception as e:      # a translator that cannot read the source fails closed: the class becomes a black box, listed
+            import traceback
+            kind, inf = 'opaque', f'translator failed on this class ({type(e).__name__}: {str(e)[:200]})'
+            untranslated[q] = inf + ' @ ' + traceback.format_exc().strip().splitlines()[-3].strip()[:160]
         construct[q] = (kind, inf)
         if kind == 'opaque':
             outside[q] = inf
@@ -1184,8 +1201,15 @@ def build():
                       fmt=c._numeric_format.get(inf['fmt_key']))
             tables[key] = {'poly': sp}
             continue
-        rows, why = field_rows(c, ctx, inf)
-        assert rows is not None, (q, ctx, why)
+        try:
+            rows, why = field_rows(c, ctx, inf)
+        except Exception as e:
+            rows, why = None, f'translator failed ({type(e).__name__}: {str(e)[:200]})'
+        if rows is None:
+            # readable in the default context but not in this one: black box here, reported
+            untranslated[f'{q} @{ctx}'] = str(why)
+            tables[key] = None
+            continue
         for r in rows:
             if 'cls' in r:
                 r['cid'] = cid(r['cls'], r['cctx'])
@@ -1241,7 +1265,8 @@ def build():
                 pin_changes.append(k)
     return dict(classes=classes, roots=[qual(r) for r in roots], outside=outside, order=order, ids=ids, tables=tables,
                 reachable=reach_py, import_failures=failed, init_extras=extras, construct=construct, labels=labels,
-                regressions=regress, expected=expected, pins=pins, pin_changes=pin_changes)
+                regressions=regress, expected=expected, pins=pins, pin_changes=pin_changes, untranslated=untranslated,
+                rule_failures=list(RULE_FAILURES))
 
 
 def row_mismatch(r):
@@ -1346,6 +1371,18 @@ def lean_text(info):
     lines.append('/-- field names are distinct per class (what the dict form and copy rely on) -/')
     lines.append('theorem tables_dwf : DWF tables := by decide +kernel')
     lines.append('')
+    # the same python class in several namespace contexts: each pair is decided to be a variant (same fields, kinds, bounds; tags differ)
+    byq = {}
+    for i, key in enumerate(info['order']):
+        byq.setdefault(key[0], []).append(i)
+    pairs = [(v[0], j) for q, v in sorted(byq.items()) if len(v) > 1 for j in v[1:]]
+    lines.append('/-- (class in the default context, the same python class in another namespace context) -/')
+    lines.append('def variantPairs : List (Nat × Nat) := [' + ', '.join(f'({a}, {b})' for a, b in pairs) + ']')
+    lines.append('')
+    lines.append('/-- every python class that occurs in several namespace contexts has the same fields of the same kinds, with the same')
+    lines.append('    bounds and index rules, in each of them (only tags differ): the hypothesis of `moved_roundtrip` for the current source -/')
+    lines.append('theorem variants_ok : variantPairs.all (fun p => variantN 48 tables p.1 p.2) = true := by decide +kernel')
+    lines.append('')
     lines.append('end Sarpy.Gen.Xml')
     return '\n'.join(lines) + '\n', dict(tags=tags, nss=nss, names=names, consts=consts), mism
 
@@ -1385,6 +1422,7 @@ if __name__ == '__main__':
     print('mismatch rows', r['mismatch_rows'])
     print('regressions', r['regressions'])
     print('pin changes', r['pin_changes'])
+    print('untranslated', r['untranslated'], 'rule failures', r['rule_failures'])
     for q, w in sorted(r['outside'].items()):
         print('  outside', q, '--', w)
     import collections
